@@ -46,7 +46,7 @@ func c16PBarRun(in *c16PBarInput) Res {
 		select {
 		case <-done:
 			return Ok(map[string]interface{}{"returned": true})
-		case <-time.After(20 * time.Second):
+		case <-hangAfter(20 * time.Second):
 			return Ok(map[string]interface{}{"returned": false})
 		}
 	})
